@@ -50,6 +50,10 @@ def outcome_class(exc):
 @st.composite
 def store_program(draw, min_steps=6, max_steps=25, etag_rate=3, uid_pool=None, with_cards=True, two_handles=False):
     names = [draw(gen.member_name(".ics", fancy=False)) for _ in range(2)] + [draw(gen.member_name(".ics", fancy=True)) for _ in range(2)]
+    if draw(st.integers(0, 3)) == 0:
+        # a name that differs from another one only in letter case is a different member
+        stem = names[0][: -len(".ics")]
+        names[1] = (stem.swapcase() if stem.swapcase() != stem else "X" + stem) + ".ics"
     if with_cards:
         names.append(draw(gen.member_name(".vcf", fancy=False)))
     bodies = [draw(gen.calendar_object(uid=draw(st.sampled_from(uid_pool)) if uid_pool else None)) for _ in range(draw(st.integers(3, 6)))]
